@@ -4,9 +4,10 @@
 # quiet on them; "ALARM" means the machinery is over-fitted to the source text (or the rewrite is not harmless after all).
 # Usage: tools/benign_test.sh [ID ...]
 cd "$(dirname "$0")/.."
-IDS="$*"; [ -z "$IDS" ] && IDS="$(ls benign 2>/dev/null | grep '^C[0-9]' | sort -u)"
+D="${BENIGN_DIR:-benign}"   # BENIGN_DIR=neutral runs the behaviour-changing but property-preserving corpus
+IDS="$*"; [ -z "$IDS" ] && IDS="$(ls $D 2>/dev/null | grep '^C[0-9]' | sort -u)"
 for id in $IDS; do
-  for m in benign/$id/*.diff; do
+  for m in $D/$id/*.diff; do
     [ -f "$m" ] || continue
     if ! git -C /repo apply --check "$(realpath "$m")" 2>/dev/null; then echo "$m: not-applicable (does not apply to current /repo)"; continue; fi
     out="$(tools/try_patch.sh "$m" "$id" 2>&1)"
